@@ -10,8 +10,9 @@ from ..core import AnalysisError, norm, short
 from ..setalg import Universe, SetInterp, Opaque, Unmodelled
 from .. import codegen
 from ..codegen import TemplateEval, Sym, Elem
-from ..cfg import CFG
-from ..layers import layers_of_var, layers_of_expr, index_of
+from ..cfg import CFG, expand_conds
+from ..layers import layers_of_var, layers_of_expr, layers_of_value, index_of
+from ..astutil import argn, assigned_value
 from .common import (cfg_of, fkey, conds, has_cond, cond_texts, stmts_of, walk_body, call_tail, call_name,
                      returns_of, raises_of, raise_type, stmt_of, kwarg)
 
@@ -71,7 +72,12 @@ def _sig_model(uni, fvar_tags=('func',)):
 
 
 def _membership_pred(it, key):
-    """``D.__contains__`` / ``lambda a: a in D`` -> mask of D."""
+    """``D.__contains__`` / ``lambda a: a in D`` (or a local naming one of these) -> mask of D."""
+    if isinstance(key, ast.Name):
+        v = it.env.get(key.id)
+        if isinstance(v, Opaque) and isinstance(v.expr, (ast.Attribute, ast.Lambda)):
+            return _membership_pred(it, v.expr)
+        return None
     if isinstance(key, ast.Attribute) and key.attr == '__contains__':
         return it.as_set(it.eval(key.value), key.value)
     if isinstance(key, ast.Lambda) and isinstance(key.body, ast.Compare) and len(key.body.ops) == 1 \
@@ -114,17 +120,49 @@ def check_chain_argspec(rep, rule):
     if not ok:
         return
     prov_var = prov_vars[0]
-    # loop header
-    hdr_ok = isinstance(loop.iter, ast.Call) and call_name(loop.iter) == 'zip' and \
-        [norm(a) for a in loop.iter.args] == [ps[0], ps[1]] and isinstance(loop.target, ast.Tuple) and len(loop.target.elts) == 2
+    # loop header: every (function, its provides) pair, outermost first -- zip(funcs, provides), or an index loop
+    itx = loop.iter
+    while isinstance(itx, ast.Call) and call_name(itx) in ('list', 'tuple', 'iter') and len(itx.args) == 1:
+        itx = itx.args[0]
+    fvar = pvar = None
+    loop_body = list(loop.body)
+    hdr_known = True
+    if isinstance(itx, ast.Call) and call_name(itx) == 'zip' and isinstance(loop.target, ast.Tuple) and len(loop.target.elts) == 2:
+        if [norm(a) for a in itx.args] == [ps[0], ps[1]]:
+            fvar, pvar = [norm(x) for x in loop.target.elts]
+    else:
+        def pick(lst, idx):
+            """The body statement ``v = <lst>[<idx>]`` -> (v, statement)."""
+            for b in loop_body:
+                if isinstance(b, ast.Assign) and len(b.targets) == 1 and isinstance(b.targets[0], ast.Name) and \
+                        isinstance(b.value, ast.Subscript) and norm(b.value.value) == lst and norm(b.value.slice) == idx:
+                    return b.targets[0].id, b
+            return None, None
+        if isinstance(itx, ast.Call) and call_name(itx) == 'enumerate' and len(itx.args) == 1 and norm(itx.args[0]) == ps[0] and \
+                isinstance(loop.target, ast.Tuple) and len(loop.target.elts) == 2 and all(isinstance(x, ast.Name) for x in loop.target.elts):
+            idx, fvar = [x.id for x in loop.target.elts]
+            pvar, pst = pick(ps[1], idx)
+            loop_body = [b for b in loop_body if b is not pst]
+        elif isinstance(itx, ast.Call) and call_name(itx) == 'range' and len(itx.args) == 1 and norm(itx.args[0]) == 'len(%s)' % ps[0] and \
+                isinstance(loop.target, ast.Name):
+            idx = loop.target.id
+            fvar, fst = pick(ps[0], idx)
+            pvar, pst = pick(ps[1], idx)
+            loop_body = [b for b in loop_body if b is not fst and b is not pst]
+        else:
+            hdr_known = False
+        if hdr_known and any(isinstance(n, ast.Name) and n.id == idx for b in loop_body for n in ast.walk(b)):
+            fvar = pvar = None       # the index is used for something else as well
+    if not hdr_known:
+        raise AnalysisError('chain_argspec: loop header %s not recognised as a walk over (function, provides) pairs' % short(loop.iter))
+    hdr_ok = fvar is not None and pvar is not None
     rep.check(rule, fkey(fi, 'loop header'), hdr_ok, 'iterates zip(%s, %s) in order' % (ps[0], ps[1]) if hdr_ok else
               'loop does not iterate zip(%s, %s): %s' % (ps[0], ps[1], short(loop.iter)), sinter, loop)
     if not hdr_ok:
         return
-    fvar, pvar = [norm(x) for x in loop.target.elts]
     it = SetInterp(uni, env={req_var: uni['R'], opt_var: uni['O'], prov_var: uni['P'], pvar: uni['p'],
                              fvar: Opaque(None, 'func')}, elems={ps[2]: uni['INNER']}, model=_sig_model(uni))
-    it.exec_block(loop.body)
+    it.exec_block(loop_body)
     U = uni['NAMES'] & uni.neg(uni['DEFAULTS'])
     D = uni['NAMES'] & uni['DEFAULTS']
     spec = {req_var: (uni['R'] | (U & uni.neg(uni['P'])), "R' = R | (undefaulted - P)  [only providers *before* the function count]"),
@@ -161,20 +199,61 @@ def check_make_chain(rep, rule, rule_align):
     uni = Universe(['REQ', 'OPT', 'PRE'])
     captured = {}
 
-    def model(it, e):
+    it = SetInterp(uni, env={ps[3]: uni['PRE']})
+    for p in (ps[0], ps[1], ps[2], ps[4]):
+        it.env[p] = Opaque(None, p)
+    # list-valued locals as concatenation normal forms: items ('*', param) = all elements of a parameter list in order,
+    # ('e', node) = one element, ('?', text) = unknown
+    seqenv = {}
+
+    def seq(e):
+        if isinstance(e, ast.BinOp) and isinstance(e.op, ast.Add):
+            return seq(e.left) + seq(e.right)
+        if isinstance(e, (ast.List, ast.Tuple)):
+            out = []
+            for x in e.elts:
+                out.extend(seq(x.value) if isinstance(x, ast.Starred) else [('e', x)])
+            return out
+        if isinstance(e, ast.Call) and call_name(e) in ('list', 'tuple') and len(e.args) == 1 and not e.keywords:
+            return seq(e.args[0])
+        if isinstance(e, ast.Name):
+            if e.id in seqenv:
+                return list(seqenv[e.id])
+            if e.id in (ps[0], ps[1]):
+                return [('*', e.id)]
+        return [('?', norm(e))]
+
+    def model(it, e):     # captures the list arguments where the call stands
         if isinstance(e, ast.Call) and call_name(e) == 'chain_argspec':
             captured['argspec'] = e
+            if len(e.args) >= 3:
+                captured['argspec_seqs'] = (seq(e.args[0]), seq(e.args[1]))
             return (uni['REQ'], uni['OPT'])
         if isinstance(e, ast.Call) and call_name(e) == 'compile_chain':
             captured['compile'] = e
-            captured['compile_args0'] = None
+            if len(e.args) >= 3:
+                p2 = seq(e.args[1])
+                captured['compile_seqs'] = (seq(e.args[0]), p2)
+                captured['compile_first'] = it.try_eval(p2[0][1]) if p2 and p2[0][0] == 'e' else None
             return Opaque(e, 'chain')
         return None
-    it = SetInterp(uni, env={ps[3]: uni['PRE']}, model=model)
-    for p in (ps[0], ps[1], ps[2], ps[4]):
-        it.env[p] = Opaque(None, p)
+    it.model = model
     body = fi.node.body
-    it.exec_block([s for s in body if not isinstance(s, ast.Return)])
+    for st in body:
+        if isinstance(st, ast.Return):
+            continue
+        it.exec_stmt(st)
+        if isinstance(st, ast.Assign) and len(st.targets) == 1 and isinstance(st.targets[0], ast.Name):
+            sq = seq(st.value)
+            if any(k == '?' for k, _ in sq):
+                seqenv.pop(st.targets[0].id, None)
+            else:
+                seqenv[st.targets[0].id] = sq
+        elif isinstance(st, ast.Expr) and isinstance(st.value, ast.Call) and isinstance(st.value.func, ast.Attribute) and \
+                isinstance(st.value.func.value, ast.Name):
+            seqenv.pop(st.value.func.value.id, None)      # a method call on the list: no longer the form we recorded
+        elif isinstance(st, ast.AugAssign) and isinstance(st.target, ast.Name):
+            seqenv.pop(st.target.id, None)
     rets = returns_of(fi)
     if len(rets) != 1 or not isinstance(rets[0].value, ast.Tuple) or len(rets[0].value.elts) != 3:
         raise AnalysisError('make_chain: expected "return chain, args, unresolved"')
@@ -198,53 +277,55 @@ def check_make_chain(rep, rule, rule_align):
               sinter, rets[0])
     # ---- alignment of the two consumers (R01.f)
     ca, cc = captured.get('argspec'), captured.get('compile')
-    if ca is None or cc is None:
-        raise AnalysisError('make_chain no longer calls chain_argspec / compile_chain')
+    if ca is None or cc is None or 'argspec_seqs' not in captured or 'compile_seqs' not in captured:
+        raise AnalysisError('make_chain no longer calls chain_argspec / compile_chain (with positional lists)')
 
-    def seq(e):
-        """Concatenation normal form of a list expression: list of element texts / '*name'."""
-        if isinstance(e, ast.BinOp) and isinstance(e.op, ast.Add):
-            return seq(e.left) + seq(e.right)
-        if isinstance(e, (ast.List, ast.Tuple)):
-            return [norm(x) for x in e.elts]
-        if isinstance(e, ast.Call) and call_name(e) in ('list', 'tuple') and len(e.args) == 1:
-            return seq(e.args[0])
-        if isinstance(e, ast.Name):
-            # look through "funcs = list(funcs)"
-            return ['*' + e.id]
-        return ['?' + norm(e)]
-    f1, p1 = seq(ca.args[0]), seq(ca.args[1])
-    f2, p2 = seq(cc.args[0]), seq(cc.args[1])
-    ok = f1 == f2 == ['*' + ps[0], ps[2]]
+    def show(sq):
+        return [('*' + v) if k == '*' else (norm(v) if k == 'e' else '?' + v) for k, v in sq]
+
+    def is_funcs(sq):
+        return len(sq) == 2 and sq[0] == ('*', ps[0]) and sq[1][0] == 'e' and norm(sq[1][1]) == ps[2]
+
+    def is_empty_tuple(x):
+        return (isinstance(x, ast.Tuple) and not x.elts) or (isinstance(x, ast.Call) and call_name(x) == 'tuple' and not x.args)
+    (f1, p1), (f2, p2) = captured['argspec_seqs'], captured['compile_seqs']
+    ok = is_funcs(f1) and is_funcs(f2)
     rep.check(rule_align, fkey(fi, 'function sequence'), ok,
               'chain_argspec and compile_chain both get funcs ++ [final_func]' if ok else
-              'function sequences differ or are not funcs ++ [final_func]: %r vs %r' % (f1, f2), sinter, cc)
-    ok = p1 == ['*' + ps[1], '()']
+              'function sequences differ or are not funcs ++ [final_func]: %r vs %r' % (show(f1), show(f2)), sinter, cc)
+    ok = len(p1) == 2 and p1[0] == ('*', ps[1]) and p1[1][0] == 'e' and is_empty_tuple(p1[1][1])
     rep.check(rule_align, fkey(fi, 'provides for argspec'), ok, 'chain_argspec gets provides ++ [()]' if ok else
-              'chain_argspec provides list is %r, expected provides ++ [()]' % p1, sinter, ca)
-    args_name = norm(r_args.args[0]) if isinstance(r_args, ast.Call) and r_args.args else norm(r_args)
-    ok = len(p2) == 2 and p2[1] == '*' + ps[1] and p2[0] == args_name
-    try:
-        first = cc.args[1].left.elts[0] if isinstance(cc.args[1], ast.BinOp) else None
-        ok = ok and first is not None and it.eval(first) == want_args
-    except Exception:
-        ok = False
+              'chain_argspec provides list is %r, expected provides ++ [()]' % show(p1), sinter, ca)
+    ok = len(p2) == 2 and p2[1] == ('*', ps[1]) and p2[0][0] == 'e' and captured.get('compile_first') == want_args
     rep.check(rule_align, fkey(fi, 'params for codegen'), ok,
               'generated level L re-binds exactly what chain_argspec counted as provided before L ([args] ++ provides)' if ok else
-              'compile_chain parameter lists are %r, expected [args] ++ provides' % p2, sinter, cc)
+              'compile_chain parameter lists are %r, expected [args] ++ provides' % show(p2), sinter, cc)
     ok = norm(ca.args[2]) == ps[4] and norm(cc.args[2]) == ps[4]
     rep.check(rule_align, fkey(fi, 'inner name'), ok, 'both consumers use the same inner name' if ok else
               'inner name differs between chain_argspec and compile_chain', sinter, cc)
     # compile_chain passes through unchanged
     cfi = sinter.func('compile_chain')
     cps = cfi.params()
-    bc = [c for c in walk_body(cfi.node) if isinstance(c, ast.Call) and call_name(c) == 'build_chain_str']
-    cco = [c for c in walk_body(cfi.node) if isinstance(c, ast.Call) and call_name(c) == 'compile_code']
-    ok = len(bc) == 1 and [norm(a) for a in bc[0].args[:3]] == cps[:3] and len(cco) == 1
+    try:
+        te = TemplateEval(repo, cfi).run()
+        sinks = [k for k in te.sinks if k['name'] == 'compile_code']
+    except AnalysisError:
+        te, sinks = None, []
+    ok = len(sinks) == 1
     if ok:
-        env = cco[0].args[2] if len(cco[0].args) > 2 else kwarg(cco[0], 'env')
-        ok = isinstance(env, ast.Dict) and [k.value for k in env.keys if isinstance(k, ast.Constant)] == ['funcs'] \
-            and norm(env.values[0]) == cps[0] and norm(cco[0].args[1]) == cps[2]
+        k = sinks[0]
+
+        def arg(name, pos):
+            return k['kw'].get(name, k['args'][pos] if len(k['args']) > pos else None)
+        code, nm, env = arg('code_str', 0), arg('name', 1), arg('env', 2)
+        ok = isinstance(code, codegen.Ex) and isinstance(code.node, ast.Call) and call_name(code.node) == 'build_chain_str' and \
+            [norm(a) for a in code.node.args[:3]] == cps[:3] and len(code.node.args) == 3 and not code.node.keywords
+        ok = ok and isinstance(nm, codegen.Ex) and nm.text == cps[2]
+        ok = ok and isinstance(env, codegen.SDict) and env.comp is None and list(env.items) == ['funcs'] and \
+            isinstance(env.items['funcs'], codegen.Ex) and env.items['funcs'].text == cps[0]
+        mr = te.main_return()
+        ok = ok and mr is not None and isinstance(mr[1], codegen.Ex) and isinstance(mr[1].node, ast.Call) and call_name(mr[1].node) == 'compile_code' \
+            and not te.guards
     rep.check(rule_align, fkey(cfi, 'pass-through'), ok,
               "compile_chain builds the text from (funcs, params, inner_name) and executes it with {'funcs': funcs}, returning env[inner_name]" if ok else
               'compile_chain does not pass funcs/params/inner_name through unchanged', sinter, cfi.node)
@@ -257,112 +338,289 @@ def check_make_chain(rep, rule, rule_align):
 PHASES = {'request': 'provides', 'endpoint': 'endpoint_provides', 'render': 'render_provides'}
 
 
-def phase_lists(repo):
-    """Locate the three (function list, provides list) pairs in make_middleware_chain by role."""
-    core = repo.mod(CORE)
-    fi = core.func('make_middleware_chain')
-    ps = fi.params()
-    sigs = {}
-    for st in stmts_of(fi.node):
-        if isinstance(st, ast.Assign) and isinstance(st.value, ast.ListComp) and isinstance(st.targets[0], ast.Name):
-            lc = st.value
-            if isinstance(lc.elt, ast.Tuple) and len(lc.elt.elts) == 2 and len(lc.generators) == 1:
-                g = lc.generators[0]
-                a, b = lc.elt.elts
-                if isinstance(a, ast.Attribute) and isinstance(b, ast.Attribute) and isinstance(g.target, ast.Name) \
-                        and norm(a.value) == g.target.id and norm(b.value) == g.target.id:
-                    sigs[st.targets[0].id] = {'func': a.attr, 'prov': b.attr, 'iter': norm(g.iter),
-                                              'ifs': [norm(c) for c in g.ifs], 'var': g.target.id, 'node': st}
-    names = {}
-    for st in stmts_of(fi.node):
-        if isinstance(st, ast.Assign) and isinstance(st.targets[0], ast.Tuple) and len(st.targets[0].elts) == 2:
-            src = [n.id for n in ast.walk(st.value) if isinstance(n, ast.Name) and n.id in sigs]
-            if len(src) == 1 and 'zip' in norm(st.value):
-                a, b = [norm(x) for x in st.targets[0].elts]
-                names[a] = ('funcs', sigs[src[0]]['func'], src[0])
-                names[b] = ('provs', sigs[src[0]]['func'], src[0])
-                sigs[src[0]]['unzip'] = st
-    return fi, sigs, names
+PROVS_PHASE = dict((v, k) for k, v in PHASES.items())
+
+
+def _phase_comp(e):
+    """``[(mw.F, mw.P) for mw in X if ...]`` / ``[mw.A for mw in X if ...]`` -> description of the comprehension, else None."""
+    if not isinstance(e, (ast.ListComp, ast.GeneratorExp)) or len(e.generators) != 1 or not isinstance(e.generators[0].target, ast.Name):
+        return None
+    g = e.generators[0]
+    var = g.target.id
+
+    def attr_of(x):
+        return x.attr if isinstance(x, ast.Attribute) and isinstance(x.value, ast.Name) and x.value.id == var else None
+    d = {'var': var, 'iter': g.iter, 'ifs': list(g.ifs), 'node': e}
+    if isinstance(e.elt, ast.Tuple) and len(e.elt.elts) == 2 and attr_of(e.elt.elts[0]) and attr_of(e.elt.elts[1]):
+        d.update(kind='sigs', func=attr_of(e.elt.elts[0]), prov=attr_of(e.elt.elts[1]))
+        return d
+    a = attr_of(e.elt)
+    if a in PHASES:
+        d.update(kind='funcs', func=a, prov=None)
+        return d
+    if a in PROVS_PHASE:
+        d.update(kind='provs', func=None, prov=a)
+        return d
+    return None
+
+
+def _strip_not(t, pol=True):
+    while isinstance(t, ast.UnaryOp) and isinstance(t.op, ast.Not):
+        t, pol = t.operand, not pol
+    return t, pol
 
 
 def check_phase_sets(rep, rule, rule_pair=None, rule_order=None, rule_core_env=None):
+    """Abstract interpretation of make_middleware_chain.  The three (function list, provides list) pairs are found
+    by evaluation: a comprehension over the middleware list that selects ``(mw.<slot>, mw.<slot provides>)`` pairs (or
+    one of the two) is a phase value; ``zip(*sigs)``, ``list(..)``, ``.. or ((), ())``, tuple unpacking, aliases and
+    an ``if not sigs: <empty lists> else: <unzip>`` split carry it to the make_chain call that consumes it."""
     repo = rep.repo
     core = repo.mod(CORE)
-    fi, sigs, names = phase_lists(repo)
+    fi = core.func('make_middleware_chain')
     ps = fi.params()   # middlewares, endpoint, render, preprovided
+    if len(ps) != 4:
+        raise AnalysisError('make_middleware_chain signature changed: %r' % ps)
     rule_pair = rule_pair or rule
-    # ---- pairing table (floor 3)
-    seen = {}
-    for sname, s in sorted(sigs.items()):
-        want = PHASES.get(s['func'])
-        ok = want == s['prov']
-        seen[s['func']] = sname
-        rep.check(rule_pair, fkey(fi, 'pairing mw.%s' % s['func']), ok,
-                  'mw.%s is paired with mw.%s' % (s['func'], s['prov']) if ok else
-                  'mw.%s functions are paired with mw.%s (expected mw.%s): provides of another phase are counted'
-                  % (s['func'], s['prov'], want), core, s['node'])
-        if rule_order:
-            ok = s['iter'] == ps[0] and s['ifs'] == ['%s.%s' % (s['var'], s['func'])] and 'unzip' in s and \
-                not any(isinstance(n, ast.Call) and call_name(n) in ('sorted', 'reversed', 'set', 'frozenset')
-                        for n in ast.walk(s['unzip'].value))
-            rep.check(rule_order, fkey(fi, 'order of mw.%s' % s['func']), ok,
-                      'the %s functions are taken from the middleware list in list order, filtered by presence only' % s['func'] if ok else
-                      'the %s function list is not the middleware list in order filtered by presence (iter %s, filters %s)'
-                      % (s['func'], s['iter'], s['ifs']), core, s['node'])
-    if set(seen) != set(PHASES):
-        raise AnalysisError('make_middleware_chain: phase comprehensions found for %s only' % sorted(seen))
-    # ---- availability sets by abstract interpretation
     uni = Universe(['PRE', 'NEXT', 'CTX', 'REQP', 'EPP', 'RNP', 'EPA', 'RNA'])
     provs_atom = {'request': 'REQP', 'endpoint': 'EPP', 'render': 'RNP'}
     args_atom = {'endpoint': 'EPA', 'render': 'RNA'}
     calls = {}
     inner = {}
+    comps = {}       # id(comprehension node) -> description (+ 'reordered' flag)
+    comp_of_phase = {}
 
-    def phase_of(e):
-        n = norm(e)
-        if n in names:
-            return names[n][1]
+    def phase_val(v):
+        """(kind, phase, comprehension description) of an interpreter value that stands for a phase list."""
+        if isinstance(v, Opaque) and isinstance(v.tag, tuple) and len(v.tag) == 3 and v.tag[0] in ('sigs', 'funcs', 'provs'):
+            return v.tag[0], v.tag[1], comps.get(v.tag[2])
+        if isinstance(v, Opaque) and v.tag is None and v.expr is not None:
+            d = _phase_comp(v.expr)
+            if d is not None:
+                d = comps.setdefault(id(d['node']), d)
+                phase = d['func'] if d['func'] is not None else PROVS_PHASE.get(d['prov'])
+                return d['kind'], phase, d
         return None
 
+    def note(d, kind, phase):
+        comp_of_phase.setdefault((kind if kind != 'sigs' else 'funcs', phase), d)
+        if kind == 'sigs':
+            comp_of_phase.setdefault(('provs', PROVS_PHASE.get(d['prov'])), d)
+
     def model(it, e):
+        if isinstance(e, (ast.SetComp, ast.ListComp, ast.GeneratorExp)):
+            return flatten_comp(it, e)
         if isinstance(e, ast.Call):
             cn = call_name(e)
+            if cn == 'zip' and len(e.args) == 1 and isinstance(e.args[0], ast.Starred) and not e.keywords:
+                pv = phase_val(it.try_eval(e.args[0].value))
+                if pv is not None and pv[0] == 'sigs':
+                    d = pv[2]
+                    return (Opaque(e, ('funcs', d['func'], id(d['node']))), Opaque(e, ('provs', PROVS_PHASE.get(d['prov']), id(d['node']))))
+                raise Unmodelled('zip(*%s): not a list of (function, provides) pairs of the middlewares' % norm(e.args[0].value))
+            if cn in ('sorted', 'reversed', 'set', 'frozenset') and e.args:
+                pv = phase_val(it.try_eval(e.args[0]))
+                if pv is not None:
+                    pv[2]['reordered'] = cn
+                    return Opaque(e, (pv[0], pv[1], id(pv[2]['node'])))
             if cn == 'make_chain':
-                ph = phase_of(e.args[0]) if e.args else None
-                if ph is None:
-                    raise Unmodelled('make_chain call with unknown function list %s' % (norm(e.args[0]) if e.args else ''))
-                avail = it.as_set(it.eval(e.args[3]), e.args[3])
-                calls[ph] = {'call': e, 'avail': avail, 'provs_phase': phase_of(e.args[1]), 'final': norm(e.args[2]),
-                             'inner': e.args[4]}
-                a = uni[args_atom[ph]] if ph in args_atom else 0
-                return (Opaque(e, 'chain:' + ph), a, Opaque(e, 'unres:' + ph))
+                a = [argn(e, n, i) for i, n in enumerate(('funcs', 'provides', 'final_func', 'preprovided', 'inner_name'))]
+                if None in a:
+                    raise Unmodelled('make_chain call with missing arguments: %s' % norm(e))
+                fv, pv = phase_val(it.try_eval(a[0])), phase_val(it.try_eval(a[1]))
+                if fv is None or fv[0] != 'funcs' or fv[1] not in PHASES:
+                    raise Unmodelled('make_chain call with unknown function list %s' % norm(a[0]))
+                ph = fv[1]
+                note(fv[2], 'funcs', ph)
+                if pv is not None and pv[0] == 'provs':
+                    note(pv[2], 'provs', pv[1])
+                avail = it.as_set(it.eval(a[3]), a[3])
+                calls[ph] = {'call': e, 'avail': avail, 'provs_phase': pv[1] if pv is not None and pv[0] == 'provs' else None,
+                             'final': norm(a[2]), 'final_node': a[2], 'inner': a[4], 'funcs': fv, 'provs': pv}
+                aa = uni[args_atom[ph]] if ph in args_atom else 0
+                return (Opaque(e, 'chain:' + ph), aa, Opaque(e, 'unres:' + ph))
             if cn == '_create_request_inner':
+                a = [argn(e, n, i) for i, n in enumerate(('endpoint', 'render', 'all_args', 'endpoint_args', 'render_args'))]
                 inner['call'] = e
-                inner['args'] = [it.try_eval(a) for a in e.args]
+                inner['args'] = [it.try_eval(x) for x in a if x is not None]
                 return Opaque(e, 'req_inner')
             if cn == 'get_arg_names':
                 return Opaque(e, 'names')
             # flatten of a provides list:  set(chain.from_iterable(X)) / set(itertools.chain(*X))
+            if cn in ('set', 'frozenset') and e.args and isinstance(e.args[0], (ast.ListComp, ast.GeneratorExp, ast.SetComp)):
+                r = flatten_comp(it, e.args[0])
+                if r is not None:
+                    return r
             if cn in ('set', 'frozenset') and e.args:
                 for n in ast.walk(e.args[0]):
-                    if isinstance(n, ast.Name) and n.id in names and names[n.id][0] == 'provs':
-                        return uni[provs_atom[names[n.id][1]]]
+                    if isinstance(n, ast.Name):
+                        pv = phase_val(it.try_eval(n))
+                        if pv is not None and pv[0] == 'provs' and pv[1] in provs_atom:
+                            note(pv[2], 'provs', pv[1])
+                            return uni[provs_atom[pv[1]]]
         return None
-    it = SetInterp(uni, env={ps[3]: uni['PRE']}, elems={"'next'": uni['NEXT'], "'context'": uni['CTX'], '_INNER_NAME': uni['NEXT']},
-                   model=model)
+
+    def flatten_comp(it, e):
+        """``{name for provides in X for name in provides}`` over a provides list X -> its atom."""
+        if len(e.generators) == 2 and all(isinstance(g.target, ast.Name) and not g.ifs for g in e.generators) and \
+                isinstance(e.generators[1].iter, ast.Name) and e.generators[1].iter.id == e.generators[0].target.id and \
+                isinstance(e.elt, ast.Name) and e.elt.id == e.generators[1].target.id:
+            pv = phase_val(it.try_eval(e.generators[0].iter))
+            if pv is not None and pv[0] == 'provs' and pv[1] in provs_atom:
+                note(pv[2], 'provs', pv[1])
+                return uni[provs_atom[pv[1]]]
+        return None
+
+    def model_comp(it, e):
+        if isinstance(e, (ast.SetComp, ast.ListComp, ast.GeneratorExp)):
+            return flatten_comp(it, e)
+        return None
+
+    def empty_list_local(name):
+        """``name`` is bound exactly once in the function, to an empty list (possibly in ``a, b = [], []``)."""
+        b = assigned_value(fi.node, name)
+        if len(b) != 1:
+            return False
+        st_, v, idx = b[0]
+        if idx is not None and isinstance(v, (ast.Tuple, ast.List)) and isinstance(idx, int) and idx < len(v.elts):
+            v = v.elts[idx]
+        elif idx is not None:
+            return False
+        return (isinstance(v, ast.List) and not v.elts) or (isinstance(v, ast.Call) and call_name(v) == 'list' and not v.args)
+
+    def for_model(it, st):
+        """Loop forms: (1) ``for mw in middlewares: if mw.request: funcs.append(mw.request); provs.append(mw.provides)``
+        builds phase lists; (2) ``for p in req_provides: names.update(p)`` flattens a provides list."""
+        if not isinstance(st.target, ast.Name) or st.orelse:
+            return False
+        var = st.target.id
+        pv = phase_val(it.try_eval(st.iter))
+        if pv is not None and pv[0] == 'provs' and pv[1] in provs_atom:
+            if len(st.body) == 1:
+                b = st.body[0]
+                tgt = arg = None
+                if isinstance(b, ast.Expr) and isinstance(b.value, ast.Call) and isinstance(b.value.func, ast.Attribute) and \
+                        b.value.func.attr == 'update' and isinstance(b.value.func.value, ast.Name) and len(b.value.args) == 1:
+                    tgt, arg = b.value.func.value.id, b.value.args[0]
+                elif isinstance(b, ast.AugAssign) and isinstance(b.op, ast.BitOr) and isinstance(b.target, ast.Name):
+                    tgt, arg = b.target.id, b.value
+                while isinstance(arg, ast.Call) and call_name(arg) in ('set', 'frozenset', 'list', 'tuple') and len(arg.args) == 1:
+                    arg = arg.args[0]
+                cur = it.env.raw(tgt) if tgt is not None else None
+                if isinstance(arg, ast.Name) and arg.id == var and hasattr(cur, 'm'):
+                    note(pv[2], 'provs', pv[1])
+                    cur.m |= uni[provs_atom[pv[1]]]        # in place: every alias of the set sees it
+                    return True
+            raise Unmodelled('loop over the %s provides list does more than collect its names' % pv[1])
+        if norm(st.iter) != ps[0] and not (isinstance(st.iter, ast.Call) and call_name(st.iter) in ('list', 'tuple', 'iter') and
+                                           len(st.iter.args) == 1 and norm(st.iter.args[0]) == ps[0]):
+            return False
+        found = []
+
+        def walk(body, cs):
+            for b in body:
+                if isinstance(b, ast.If):
+                    t, pol = _strip_not(b.test)
+                    walk(b.body, cs + [(t, pol)])
+                    walk(b.orelse, cs + [(t, not pol)])
+                elif isinstance(b, ast.Expr) and isinstance(b.value, ast.Call) and isinstance(b.value.func, ast.Attribute) and \
+                        b.value.func.attr == 'append' and isinstance(b.value.func.value, ast.Name) and len(b.value.args) == 1:
+                    found.append((b.value.func.value.id, b.value.args[0], cs, b))
+                elif isinstance(b, ast.Pass):
+                    continue
+                else:
+                    raise Unmodelled('statement %s in the loop over the middlewares' % norm(b)[:60])
+        walk(st.body, [])
+        if not found:
+            return False
+        for lname, val, cs, b in found:
+            fake = ast.copy_location(ast.ListComp(elt=val, generators=[ast.comprehension(
+                target=ast.Name(id=var, ctx=ast.Store()), iter=st.iter, ifs=[t if pol else ast.UnaryOp(op=ast.Not(), operand=t) for t, pol in cs],
+                is_async=0)]), b)
+            d = _phase_comp(fake)
+            if d is None or not empty_list_local(lname) or sum(1 for f in found if f[0] == lname) != 1:
+                raise Unmodelled('list %s built in the loop over the middlewares is not a phase list' % lname)
+            d['node'] = st
+            d['fake'] = fake
+            comps[id(fake)] = d
+            phase = d['func'] if d['func'] is not None else PROVS_PHASE.get(d['prov'])
+            it.env[lname] = Opaque(fake, (d['kind'], phase, id(fake)))
+        return True
+
+    def if_model(it, st):
+        """``if not sigs: funcs = (); provs = () / else: funcs, provs = zip(*sigs)``: the empty branch is the non-empty
+        one specialised to the empty list."""
+        t, pol = _strip_not(st.test)
+        name = None
+        for n in ast.walk(t):
+            if isinstance(n, ast.Name) and phase_val(it.try_eval(n)) is not None:
+                name = n.id
+        if name is None:
+            return False
+        if _implies_empty(t, pol, name):
+            empty, full = st.body, st.orelse
+        elif _implies_empty(t, not pol, name):
+            empty, full = st.orelse, st.body
+        else:
+            return False
+        bound = []
+        for s_ in empty:
+            if isinstance(s_, ast.Pass):
+                continue
+            v = s_.value if isinstance(s_, ast.Assign) and len(s_.targets) == 1 and isinstance(s_.targets[0], ast.Name) else None
+            if v is None or not ((isinstance(v, (ast.Tuple, ast.List)) and not v.elts) or
+                                 (isinstance(v, ast.Call) and call_name(v) in ('tuple', 'list') and not v.args)):
+                raise Unmodelled('the branch for an empty %s does more than bind empty sequences' % name)
+            bound.append(s_.targets[0].id)
+        it.exec_block(full)
+        for b in bound:
+            if phase_val(it.env.get(b)) is None:
+                raise Unmodelled('%s is () when %s is empty but not a phase list otherwise' % (b, name))
+        return True
+    it = SetInterp(uni, env={ps[3]: uni['PRE']}, elems={"'next'": uni['NEXT'], "'context'": uni['CTX']}, model=model)
+    it.if_model = if_model
+    it.for_model = for_model
+    it.fold = lambda e: repo.try_fold(e, core)
     for p in ps[:3]:
         it.env[p] = Opaque(None, p)
     try:
         it.exec_block([s for s in fi.node.body if not isinstance(s, ast.Return)])
     except Unmodelled as e:
         raise AnalysisError('make_middleware_chain outside the modelled subset: %s' % e)
+    for ph in ('endpoint', 'render', 'request'):
+        if ph not in calls:
+            raise AnalysisError('make_middleware_chain: no make_chain call for the %s phase' % ph)
+    # ---- pairing table (floor 3) and list order
+    for ph in sorted(PHASES):
+        fd, pd = comp_of_phase.get(('funcs', ph)), calls[ph]['provs'][2] if calls[ph]['provs'] else None
+        if fd is None:
+            raise AnalysisError('make_middleware_chain: function list of the %s phase not identified' % ph)
+        got_prov = pd['prov'] if pd is not None else None
+        want = PHASES[ph]
+        ok = got_prov == want
+        rep.check(rule_pair, fkey(fi, 'pairing mw.%s' % ph), ok,
+                  'mw.%s is paired with mw.%s' % (ph, want) if ok else
+                  'mw.%s functions are paired with mw.%s (expected mw.%s): provides of another phase are counted'
+                  % (ph, got_prov, want), core, fd['node'])
+        if rule_order:
+            def in_order(d):
+                itx = d['iter']
+                while isinstance(itx, ast.Call) and call_name(itx) in ('list', 'tuple', 'iter') and len(itx.args) == 1:
+                    itx = itx.args[0]
+                flt = [norm(c) for c in d['ifs']]
+                return norm(itx) == ps[0] and flt == ['%s.%s' % (d['var'], ph)] and not d.get('reordered')
+            ok = in_order(fd) and pd is not None and in_order(pd)
+            rep.check(rule_order, fkey(fi, 'order of mw.%s' % ph), ok,
+                      'the %s functions are taken from the middleware list in list order, filtered by presence only' % ph if ok else
+                      'the %s function list is not the middleware list in order filtered by presence (iter %s, filters %s%s)'
+                      % (ph, norm(fd['iter']), [norm(c) for c in fd['ifs']], ', then %s()' % fd['reordered'] if fd.get('reordered') else ''),
+                      core, fd['node'])
+    # ---- availability sets by abstract interpretation
     base = uni['PRE'] & uni.neg(uni['NEXT']) & uni.neg(uni['CTX'])
     want = {'request': (base, '(preprovided - {next, context})'),
             'endpoint': (base | uni['REQP'], '(preprovided - {next, context}) | request-provides'),
             'render': (base | uni['REQP'] | uni['CTX'], '(preprovided - {next, context}) | request-provides | {context}')}
     for ph in ('endpoint', 'render', 'request'):
-        if ph not in calls:
-            raise AnalysisError('make_middleware_chain: no make_chain call for the %s phase' % ph)
         c = calls[ph]
         w, text = want[ph]
         ok = c['avail'] == w
@@ -399,7 +657,7 @@ def check_phase_sets(rep, rule, rule_pair=None, rule_order=None, rule_core_env=N
                   'endpoint/render argument sets passed to the request core are swapped or altered', core, inner['call'])
     # request-phase final func is the request core
     rq = calls['request']
-    v = it.env.get(rq['final'])
+    v = it.try_eval(rq['final_node'])
     ok = isinstance(v, Opaque) and v.tag == 'req_inner'
     rep.check(rule_core_env, fkey(fi, 'request chain wraps core'), ok, 'request middlewares wrap process_request' if ok else
               'the request chain does not end in the process_request function', core, rq['call'])
@@ -415,11 +673,59 @@ def check_phase_sets(rep, rule, rule_pair=None, rule_order=None, rule_core_env=N
 # R01.b: unresolved => NameError
 # ---------------------------------------------------------------------------------------------
 
+def _single_value(fi, name):
+    vals = [v for st, v, idx in assigned_value(fi.node, name) if idx is None and isinstance(st, ast.Assign)]
+    alls = assigned_value(fi.node, name)
+    return vals[0] if len(vals) == 1 and len(alls) == 1 else None
+
+
+def _deref(fi, e, depth=3):
+    """Follow single-assignment locals: the expression a name stands for."""
+    for _ in range(depth):
+        if isinstance(e, ast.Name):
+            v = _single_value(fi, e.id)
+            if v is None or e.id in fi.params():
+                break
+            e = v
+        else:
+            break
+    return e
+
+
+def _branches_resolved(fi, cfg):
+    """Branch nodes as (node id, test, polarity) with leading nots stripped and a test that is a single-assignment local
+    naming a condition replaced by that condition."""
+    out = []
+    for nid, t, p in cfg.branches():
+        for _ in range(3):
+            if isinstance(t, ast.Name):
+                v = _single_value(fi, t.id)
+                if v is not None and isinstance(v, (ast.Compare, ast.UnaryOp, ast.Call, ast.BoolOp)):
+                    t, p = _strip_not(v, p)
+                    continue
+            break
+        out.append((nid, t, p))
+    return out
+
+
+def _always_raises(cfg, srcs, exc):
+    """From the nodes ``srcs`` every normal path ends in ``raise <exc>`` (the function's exit is not reachable)."""
+    r = cfg.reach(srcs, normal_only=True)
+    if cfg.exit in r:
+        return False, 'escapes'
+    rz = [cfg.nodes[n].stmt for n in r if n in cfg.raise_nodes]
+    types = set(raise_type(x) for x in rz)
+    if types != {exc}:
+        return False, 'type %s' % sorted(str(t) for t in types)
+    return True, ''
+
+
 def check_unresolved_raises(rep, rule):
     repo = rep.repo
     core = repo.mod(CORE)
     fi = core.func('make_middleware_chain')
     cfg = cfg_of(fi)
+    branches = _branches_resolved(fi, cfg)
     n = 0
     for st in stmts_of(fi.node):
         if isinstance(st, ast.Assign) and isinstance(st.value, ast.Call) and call_name(st.value) == 'make_chain':
@@ -429,42 +735,51 @@ def check_unresolved_raises(rep, rule):
                 rep.fail(rule, fkey(fi, st.value), 'the unresolved set returned by make_chain is not bound to a name (dropped)', core, st)
                 continue
             u = t.elts[2].id
-            ifs = [s for s in stmts_of(fi.node) if isinstance(s, ast.If) and
-                   (norm(s.test) in (u, 'len(%s)' % u, '%s != set()' % u, 'len(%s) > 0' % u, 'bool(%s)' % u))]
+            forms = [u] + ['%s(%s)' % (w, u) for w in ('list', 'tuple', 'sorted', 'set', 'frozenset')]   # same emptiness
+
+            def about_u(tt, pol, _):
+                return any(_implies_empty(tt, pol, f) for f in forms)
+            tb = [nid for nid, tt, p in branches if about_u(tt, not p, True)]      # the set is non-empty on this branch
+            eb = [nid for nid, tt, p in branches if about_u(tt, p, True)]          # the set is empty on this branch
             ok = False
             why = 'the unresolved set %s is never tested' % u
-            for i in ifs:
-                tb = cfg.branch_nodes(i.test, True)
-                escapes = cfg.exit in cfg.reach(tb, normal_only=True)
-                rz = [r for r in ast.walk(i) if isinstance(r, ast.Raise)]
-                types = set(raise_type(r) for r in rz)
-                dom = cfg.must_pass(cfg.nodes_of(i), cfg.nodes_of(st), cfg.exit, normal_only=True)
-                if not escapes and types == {'NameError'} and dom:
+            if tb:
+                raises, how = _always_raises(cfg, tb, 'NameError')
+                dom = cfg.must_pass(eb, cfg.nodes_of(st), cfg.exit, normal_only=True)
+                if raises and dom:
                     ok = True
-                elif escapes:
+                elif how == 'escapes':
                     why = 'a non-empty %s does not always raise' % u
-                elif types != {'NameError'}:
-                    why = 'unresolved arguments raise %s instead of NameError' % sorted(types)
-                elif not dom:
+                elif not raises:
+                    why = 'unresolved arguments raise %s instead of NameError' % how[5:]
+                else:
                     why = 'the test of %s can be bypassed' % u
-            rep.check(rule, fkey(fi, 'unresolved of ' + norm(st.value.args[0])), ok,
+            a0 = argn(st.value, 'funcs', 0)
+            rep.check(rule, fkey(fi, 'unresolved of ' + norm(a0)), ok,
                       'non-empty %s => raise NameError on every path to the return' % u if ok else why, core, st)
     if n < 3:
         raise AnalysisError('make_middleware_chain: %d make_chain calls (floor 3)' % n)
     # 'next' must not be taken by endpoint / render
     ps = fi.params()
     for who in (ps[1], ps[2]):
-        ifs = [s for s in stmts_of(fi.node) if isinstance(s, ast.If) and isinstance(s.test, ast.Compare)
-               and isinstance(s.test.ops[0], ast.In) and isinstance(s.test.left, ast.Constant) and s.test.left.value == 'next'
-               and isinstance(s.test.comparators[0], ast.Call) and call_name(s.test.comparators[0]) == 'get_arg_names'
-               and norm(s.test.comparators[0].args[0]) == who]
-        ok = False
-        for i in ifs:
-            tb = cfg.branch_nodes(i.test, True)
-            if cfg.exit not in cfg.reach(tb, normal_only=True) and \
-                    set(raise_type(r) for r in ast.walk(i) if isinstance(r, ast.Raise)) == {'NameError'} and \
-                    cfg.must_pass(cfg.nodes_of(i), cfg.entry, cfg.exit, normal_only=True):
-                ok = True
+        def names_of_who(x):
+            """x evaluates to all the parameter names of ``who``."""
+            if isinstance(x, ast.Name):
+                v = _single_value(fi, x.id)
+                return v is not None and names_of_who(v)
+            if isinstance(x, ast.Call) and call_name(x) in ('set', 'list', 'tuple', 'frozenset', 'sorted') and len(x.args) == 1:
+                return names_of_who(x.args[0])
+            if not (isinstance(x, ast.Call) and call_name(x) == 'get_arg_names' and x.args and norm(x.args[0]) == who):
+                return False
+            only = argn(x, 'only_required', 1)
+            return only is None or (isinstance(only, ast.Constant) and not only.value)
+        tb, fb = [], []
+        for nid, tt, p in branches:
+            if isinstance(tt, ast.Compare) and len(tt.ops) == 1 and isinstance(tt.ops[0], (ast.In, ast.NotIn)) and \
+                    repo.try_fold(tt.left, core) == 'next' and names_of_who(tt.comparators[0]):
+                takes = p if isinstance(tt.ops[0], ast.In) else not p
+                (tb if takes else fb).append(nid)
+        ok = bool(tb) and _always_raises(cfg, tb, 'NameError')[0] and cfg.must_pass(fb, cfg.entry, cfg.exit, normal_only=True)
         rep.check(rule, fkey(fi, "'next' in %s" % who), ok, "%s taking 'next' raises NameError at bind time" % who if ok else
                   "%s may declare 'next' without a NameError at bind time" % who, core, fi.node)
 
@@ -473,18 +788,34 @@ def check_unresolved_raises(rep, rule):
 # R02.a/b, R03.a/b, R01.f(recursion): the generated level (build_chain_str)
 # ---------------------------------------------------------------------------------------------
 
+def _implies_empty(t, pol, name):
+    """Does the path condition (t, pol) say that the sequence ``name`` is empty?"""
+    n = norm(t)
+    if n == name or n in ('len(%s)' % name, 'bool(%s)' % name):
+        return pol is False
+    if isinstance(t, ast.Compare) and len(t.ops) == 1:
+        l, r, op = norm(t.left), norm(t.comparators[0]), t.ops[0]
+        if l == 'len(%s)' % name and r == '0':
+            return (isinstance(op, ast.Eq) and pol is True) or (isinstance(op, (ast.NotEq, ast.Gt)) and pol is False)
+        if l == 'len(%s)' % name and r == '1':
+            return (isinstance(op, ast.Lt) and pol is True) or (isinstance(op, ast.GtE) and pol is False)
+        if l == name and r in ('[]', '()'):
+            return (isinstance(op, ast.Eq) and pol is True) or (isinstance(op, ast.NotEq) and pol is False)
+    return False
+
+
 def analyse_level_template(repo):
+    """Symbolic run of build_chain_str: (fi, evaluator, parts of the template return, stopping return, main return)."""
     sinter = repo.mod(SINTER)
     fi = sinter.func('build_chain_str')
-    ps = fi.params()
-    te = TemplateEval(repo, fi)
-    rets = returns_of(fi)
-    stop = [r for r in rets if isinstance(r.value, ast.Constant) and r.value.value == '']
-    main = [r for r in rets if r not in stop]
-    if len(stop) != 1 or len(main) != 1:
-        raise AnalysisError('build_chain_str: expected one stopping return and one template return')
-    parts = te.ev(main[0].value, main[0].lineno)
-    return fi, te, parts, stop[0], main[0]
+    te = TemplateEval(repo, fi).run()
+    mr = te.main_return()
+    stops = [r for st, t, rets in te.guards for r in rets]
+    empty = [r for r in stops if isinstance(r[1], codegen.Tmpl) and ''.join(p for p in r[1].parts if isinstance(p, str)) == ''
+             and all(isinstance(p, str) for p in r[1].parts)]
+    if mr is None or not isinstance(mr[1], codegen.Tmpl) or len(stops) != 1 or len(empty) != 1:
+        raise AnalysisError('build_chain_str: expected one stopping return (the empty string) and one template return')
+    return fi, te, mr[1].parts, empty[0][0], mr[0]
 
 
 def _render_level(repo, fi, parts, level):
@@ -507,9 +838,13 @@ def check_generated_level(rep, r_kw, r_decl, r_tail, r_index, r_rec):
     key = lambda w: fkey(fi, w)
     # stopping case
     cs = conds(fi, stop)
-    ok = has_cond(cs, lambda t: norm(t) == ps[0], False)
+    ok = any(_implies_empty(t, p, ps[0]) for t, p in cs)
     rep.check(r_rec, key('stopping case'), ok, "returns '' exactly when no functions are left" if ok else
               'the empty-string return is not guarded by "not %s"' % ps[0], sinter, stop)
+    opaque = [p_ for p_ in codegen.flatten_syms(parts) if p_.kind == 'expr']
+    if opaque:
+        raise AnalysisError('build_chain_str: the level template has parts the evaluator cannot follow: %s'
+                            % [norm(p_.expr)[:60] for p_ in opaque[:3]])
     trees = {}
     for level in (0, 2):
         try:
@@ -561,9 +896,11 @@ def check_generated_level(rep, r_kw, r_decl, r_tail, r_index, r_rec):
     argn = [x.arg for x in a.args]
     js = [r.holes.get(x) for x in argn]
     ok = len(argn) == 2 and not a.defaults and not a.kwonlyargs and a.vararg is None and a.kwarg is None and \
-        all(isinstance(j, Sym) and j.kind == 'join' and norm(j.iter) == '%s[0]' % ps[1] for j in js)
-    rep.check(r_rec, key('def parameters'), ok, 'level parameters are exactly %s[0]' % ps[1] if ok else
-              'generated def parameters are not the join of %s[0]' % ps[1], sinter, main)
+        all(isinstance(j, Sym) and j.kind == 'join' and norm(j.iter) == '%s[0]' % ps[1] and j.elt is None and not j.filters
+            and not getattr(j, 'order_ops', None) for j in js)
+    rep.check(r_rec, key('def parameters'), ok, 'level parameters are exactly %s[0], in that order' % ps[1] if ok else
+              'generated def parameters are not the join of %s[0] in its own order (the enclosing middleware passes them to next() '
+              'positionally)' % ps[1], sinter, main)
     # ---- keyword identity (R02.a)
     kw_ok = not call.args and all(k.arg is not None and isinstance(k.value, ast.Name) and k.arg == k.value.id for k in call.keywords) \
         and len(call.keywords) >= 1
@@ -588,18 +925,27 @@ def check_generated_level(rep, r_kw, r_decl, r_tail, r_index, r_rec):
     rep.check(r_decl, key('in-scope filter'), ok,
               'a declared name is passed only if it is in params_sofar (in scope at this level)' if ok else
               'emitted arguments are not filtered by membership in params_sofar: %r' % [f[2] for f in j.filters], sinter, main)
-    # params_sofar discipline
-    cfg = cfg_of(fi)
-    upd = [s for s in stmts_of(fi.node) if isinstance(s, ast.Expr) and isinstance(s.value, ast.Call)
-           and norm(s.value.func) == 'params_sofar.update' and norm(s.value.args[0]) == '%s[0]' % ps[1]]
-    use = [stmt_of(sinter, f[3]) for f in flt]
-    ok = bool(upd) and bool(use) and all(cfg.must_pass(cfg.nodes_of_all(upd), cfg.entry, cfg.nodes_of(u)) for u in use)
+    # params_sofar discipline: decided on the execution trace of the symbolic run (scope-set updates, evaluations of the
+    # membership filter, recursive call -- in the order in which the builder performs them)
+    evs = te.events
+    scope = 'params_sofar'
+    flt_nodes = set(id(f[3]) for f in flt)
+    i_upd = [i for i, e in enumerate(evs) if e['kind'] == 'update' and e['target'] == scope and e['arg'] == '%s[0]' % ps[1]]
+    i_other = [i for i, e in enumerate(evs) if e['kind'] in ('update', 'add', 'discard', 'remove', 'clear', 'difference_update',
+                                                               'intersection_update') and e['target'] == scope and i not in i_upd]
+    i_use = [i for i, e in enumerate(evs) if e['kind'] == 'filter' and id(e['node']) in flt_nodes]
+    i_rec = [i for i, e in enumerate(evs) if e['kind'] == 'rec']
+    ok = bool(i_upd) and bool(i_use) and min(i_upd) < min(i_use) and not i_other
     rep.check(r_rec, key('params_sofar updated before use'), ok,
               'params_sofar gains %s[0] before the call arguments are filtered' % ps[1] if ok else
-              'params_sofar is not updated with %s[0] before filtering the call arguments' % ps[1], sinter, upd[0] if upd else fi.node)
-    init = [s for s in stmts_of(fi.node) if isinstance(s, ast.Assign) and norm(s.targets[0]) == 'params_sofar']
-    ok = len(init) == 1 and norm(init[0].value) in ('set([%s])' % ps[2], '{%s}' % ps[2], 'set((%s,))' % ps[2]) and \
-        has_cond(conds(fi, init[0]), lambda t: norm(t) == 'params_sofar is None', True)
+              'params_sofar is not updated with %s[0] (and nothing else) before filtering the call arguments' % ps[1], sinter,
+              evs[i_upd[0]]['node'] if i_upd else fi.node)
+    init = te.inits.get(scope)
+    upd_stmts = [e.get('stmt') for e in evs if e['kind'] == 'update' and e['target'] == scope]
+    rebound = [s_ for s_ in stmts_of(fi.node) if isinstance(s_, (ast.Assign, ast.AugAssign)) and
+               any(norm(t) == scope for t in (s_.targets if isinstance(s_, ast.Assign) else [s_.target]))
+               and not (init is not None and any(s_ is x for x in ast.walk(init[0]))) and not any(s_ is u for u in upd_stmts)]
+    ok = init is not None and norm(init[1]) in ('set([%s])' % ps[2], '{%s}' % ps[2], 'set((%s,))' % ps[2], 'set({%s})' % ps[2]) and not rebound
     rep.check(r_rec, key('params_sofar initial'), ok, 'params_sofar starts as {inner_name}' if ok else
               'params_sofar does not start as {%s}' % ps[2], sinter, init[0] if init else fi.node)
     # ---- index / level (R03.b)
@@ -618,11 +964,10 @@ def check_generated_level(rep, r_kw, r_decl, r_tail, r_index, r_rec):
                   sinter, main)
     # ---- recursion (R01.f)
     recs = [s for s in codegen.flatten_syms(parts) if s.kind == 'rec']
-    if len(recs) != 1:
+    if len(recs) != 1 or len(i_rec) != 1:
         raise AnalysisError('build_chain_str: expected exactly one recursive call in the template')
     rc = recs[0].call
-    argmap = dict(zip(ps, [norm(x) for x in rc.args]))
-    argmap.update((k.arg, norm(k.value)) for k in rc.keywords)
+    argmap = recs[0].argmap
     want = {ps[0]: '%s[1:]' % ps[0], ps[1]: '%s[1:]' % ps[1], ps[2]: ps[2], 'params_sofar': 'params_sofar', 'level': 'level + 1'}
     bad = dict((k, argmap.get(k)) for k, v in want.items() if argmap.get(k) != v)
     rep.check(r_rec, key('recursion'), not bad,
@@ -630,13 +975,12 @@ def check_generated_level(rep, r_kw, r_decl, r_tail, r_index, r_rec):
               'recursive call arguments deviate: %r' % bad, sinter, rc)
     # the accumulating scope set is shared with the deeper levels (same object): the arguments of *this* level must be
     # filtered before the recursion adds the provides of the levels below it
-    rec_st = stmt_of(sinter, rc)
-    ok = bool(use) and rec_st is not None and all(cfg.must_pass(cfg.nodes_of(u), cfg.entry, cfg.nodes_of(rec_st)) for u in use)
+    ok = bool(i_use) and max(i_use) < i_rec[0]
     rep.check(r_rec, key('filter before recursion'), ok,
               'the call arguments of a level are filtered by params_sofar before the recursive call extends that set' if ok else
               'the recursive call (which adds deeper levels\' provides to the shared params_sofar) runs before this level\'s arguments are '
               'filtered: a function is handed names that are only defined further inside (NameError in the generated code at request time)',
-              sinter, rec_st or main)
+              sinter, rc)
     # the rec text sits between def line and the return (checked through shape); and it is emitted inside the def
     return j
 
@@ -650,13 +994,21 @@ def check_request_core(rep, rule, rule_kw=None):
     core = repo.mod(CORE)
     fi = core.func('_create_request_inner')
     ps = fi.params()
-    te = TemplateEval(repo, fi)
-    cc = [c for c in walk_body(fi.node) if isinstance(c, ast.Call) and call_name(c) == 'compile_code']
-    if len(cc) != 1:
+    te = TemplateEval(repo, fi).run()
+    sinks = [k for k in te.sinks if k['name'] == 'compile_code']
+    if len(sinks) != 1:
         raise AnalysisError('_create_request_inner: expected one compile_code call')
-    cc = cc[0]
-    code = cc.args[0] if cc.args else kwarg(cc, 'code_str')
-    parts = te.ev(code, cc.lineno)
+    sink = sinks[0]
+    cc = sink['node']
+
+    def sink_arg(name, pos):
+        if name in sink['kw']:
+            return sink['kw'][name]
+        return sink['args'][pos] if len(sink['args']) > pos else None
+    code = sink_arg('code_str', 0)
+    if not isinstance(code, codegen.Tmpl):
+        raise AnalysisError('request-core template is not a string the evaluator can follow: %r' % (code,))
+    parts = code.parts
     if any(isinstance(p, Sym) and p.kind == 'expr' for p in parts):
         raise AnalysisError('request-core template has an opaque part: %r' % [p for p in parts if isinstance(p, Sym) and p.kind == 'expr'])
     r = codegen.render(parts)
@@ -668,8 +1020,8 @@ def check_request_core(rep, rule, rule_kw=None):
         rep.fail(rule, fkey(fi, 'template parses'), 'the request-core template does not produce valid Python: %s' % e, core, cc)
         return
     fdefs = [s for s in tree.body if isinstance(s, ast.FunctionDef)]
-    name = kwarg(cc, 'name') or (cc.args[1] if len(cc.args) > 1 else None)
-    name = repo.try_fold(name, core) if name is not None else None
+    name = sink_arg('name', 1)
+    name = ''.join(name.parts) if isinstance(name, codegen.Tmpl) and all(isinstance(p, str) for p in name.parts) else None
     ok = len(fdefs) == 1 and len(tree.body) == 1 and fdefs[0].name == name
     rep.check(rule, fkey(fi, 'template def'), ok, 'template defines exactly the function compile_code returns (%s)' % name if ok else
               'template does not define exactly one function named %r' % name, core, cc)
@@ -677,9 +1029,23 @@ def check_request_core(rep, rule, rule_kw=None):
         return
     f = fdefs[0]
     cfg = CFG(f)
+    # the global names of the generated function, by role: what the environment binds to the endpoint chain, the render
+    # chain and werkzeug's BaseResponse
+    env = sink_arg('env', 2)
+    envmap = {}
+    if isinstance(env, codegen.SDict) and env.comp is None:
+        envmap = dict((k, v.text if isinstance(v, codegen.Ex) else None) for k, v in env.items.items())
+    ep_name = ([k for k, v in envmap.items() if v == ps[0]] + ['endpoint'])[0]
+    rn_name = ([k for k, v in envmap.items() if v == ps[1]] + ['render'])[0]
+    br_name = 'BaseResponse'
+    for k, v in envmap.items():
+        if v is not None and v.isidentifier() and v not in te.env:
+            kind_, mm_, obj_ = repo.resolve(core, v)
+            if kind_ == 'class' and obj_.name == 'BaseResponse':
+                br_name = k
     calls = [n for n in ast.walk(f) if isinstance(n, ast.Call)]
-    ep_calls = [c for c in calls if norm(c.func) == 'endpoint']
-    rn_calls = [c for c in calls if norm(c.func) == 'render']
+    ep_calls = [c for c in calls if norm(c.func) == ep_name]
+    rn_calls = [c for c in calls if norm(c.func) == rn_name]
     parents = {}
     for p in ast.walk(f):
         for ch in ast.iter_child_nodes(p):
@@ -703,7 +1069,7 @@ def check_request_core(rep, rule, rule_kw=None):
     rep.check(rule, fkey(fi, 'endpoint first'), ok, 'the endpoint call dominates render and the return' if ok else
               'render or the return can be reached without calling endpoint', core, cc)
     is_resp = lambda t: isinstance(t, ast.Call) and norm(t.func) == 'isinstance' and len(t.args) == 2 and \
-        norm(t.args[0]) == 'context' and norm(t.args[1]) == 'BaseResponse'
+        norm(t.args[0]) == 'context' and norm(t.args[1]) == br_name
     ok = len(rn_calls) == 1
     if ok:
         cs = cfg.conds_at_stmt(stmt_of_(rn_calls[0]))
@@ -724,9 +1090,9 @@ def check_request_core(rep, rule, rule_kw=None):
             t_false = any(is_resp(t) and p is False for t, p in scs)
             if src == 'context' and not t_true:
                 good = False
-            elif src.startswith('render(') and not t_false:
+            elif src.startswith(rn_name + '(') and not t_false:
                 good = False
-            elif src not in ('context',) and not src.startswith('render('):
+            elif src not in ('context',) and not src.startswith(rn_name + '('):
                 good = False
     rep.check(rule, fkey(fi, 'returns'), good,
               'returns the endpoint result when it is a Response, else the render result, unmodified' if good else
@@ -756,17 +1122,16 @@ def check_request_core(rep, rule, rule_kw=None):
     ok = defargs and all(isinstance(h, Sym) and h.kind == 'join' and norm(h.iter) == ps[2] for h in defargs) and not f.args.defaults
     rep.check(rule_kw, fkey(fi, 'def parameters'), ok, 'process_request takes exactly %s' % ps[2] if ok else
               'process_request parameters are not %s' % ps[2], core, cc)
-    # environment
-    env = kwarg(cc, 'env') or (cc.args[2] if len(cc.args) > 2 else None)
-    if isinstance(env, ast.Name):
-        vals = [s.value for s in stmts_of(fi.node) if isinstance(s, ast.Assign) and norm(s.targets[0]) == env.id]
-        env = vals[-1] if vals else None
-    ok = isinstance(env, ast.Dict)
+    # environment: exactly the three names the generated function reads as globals
+    ok = isinstance(env, codegen.SDict) and env.comp is None
     if ok:
-        m = dict((k.value, norm(v)) for k, v in zip(env.keys, env.values) if isinstance(k, ast.Constant))
-        ok = m.get('endpoint') == ps[0] and m.get('render') == ps[1] and m.get('BaseResponse') == 'BaseResponse'
+        m = envmap
+        free = set(n.id for n in ast.walk(f) if isinstance(n, ast.Name) and isinstance(n.ctx, ast.Load)) - \
+            set(a.arg for a in f.args.args) - set(n.id for n in ast.walk(f) if isinstance(n, ast.Name) and isinstance(n.ctx, ast.Store))
+        free = set(x for x in free if not x.startswith('__H') and x not in ('isinstance', 'True', 'False', 'None'))
+        ok = m.get(ep_name) == ps[0] and m.get(rn_name) == ps[1] and ep_name != rn_name and br_name in m and free <= set(m)
         if ok:
-            k, mm, obj = repo.resolve(core, 'BaseResponse')
+            k, mm, obj = repo.resolve(core, m[br_name]) if m[br_name] and m[br_name] not in te.env else (None, None, None)
             ok = k == 'class' and obj.name == 'BaseResponse' and obj.mod.name.startswith('werkzeug')
     rep.check(rule, fkey(fi, 'environment'), ok, "names endpoint/render/BaseResponse in the generated code are bound to the endpoint chain, the "
               "render chain and werkzeug's BaseResponse" if ok else 'the environment handed to compile_code mis-binds endpoint/render/BaseResponse',
@@ -951,10 +1316,28 @@ def check_merge_order(rep, rule):
     muts = [c for c in walk_body(fi.node) if isinstance(c, ast.Call) and isinstance(c.func, ast.Attribute)
             and norm(c.func.value) == M and c.func.attr in ('append', 'insert', 'extend', 'sort', 'reverse', 'remove', 'pop')]
     loops = [s for s in stmts_of(fi.node) if isinstance(s, ast.For)]
-    ok = len(loops) == 1 and norm(loops[0].iter) in (ps[0], 'list(%s)' % ps[0]) and isinstance(loops[0].target, ast.Name)
-    if ok and norm(loops[0].iter) == ps[0]:
-        re_old = [s for s in stmts_of(fi.node) if isinstance(s, ast.Assign) and norm(s.targets[0]) == ps[0]]
-        ok = all(norm(s.value) == 'list(%s)' % ps[0] for s in re_old)
+
+    def is_old(e, depth=0):
+        """``e`` is the old list itself or an order-preserving copy of it (possibly under a local name)."""
+        if isinstance(e, ast.Call) and call_name(e) in ('list', 'tuple', 'iter') and len(e.args) == 1 and not e.keywords:
+            return is_old(e.args[0], depth)
+        if isinstance(e, ast.Starred):
+            return is_old(e.value, depth)
+        if isinstance(e, (ast.List, ast.Tuple)) and len(e.elts) == 1 and isinstance(e.elts[0], ast.Starred):
+            return is_old(e.elts[0].value, depth)
+        if isinstance(e, ast.Subscript) and isinstance(e.slice, ast.Slice) and e.slice.lower is None and e.slice.upper is None and e.slice.step is None:
+            return is_old(e.value, depth)
+        if isinstance(e, ast.Name):
+            vals = [v for st_, v, idx in assigned_value(fi.node, e.id)]
+            if e.id == ps[0]:
+                return all(is_old_rebind(v) for v in vals)
+            return depth < 3 and len(vals) == 1 and is_old(vals[0], depth + 1)
+        return False
+
+    def is_old_rebind(v):
+        # ``old = list(old)``
+        return isinstance(v, ast.Call) and call_name(v) in ('list', 'tuple') and len(v.args) == 1 and norm(v.args[0]) == ps[0]
+    ok = len(loops) == 1 and is_old(loops[0].iter) and isinstance(loops[0].target, ast.Name)
     rep.check(rule, fkey(fi, 'iterates old in order'), ok, 'the old (inner) list is walked in order' if ok else
               'merge does not iterate the old list in order', core, loops[0] if loops else fi.node)
     if not ok:
@@ -970,11 +1353,24 @@ def check_merge_order(rep, rule):
               'an old middleware is appended (after all new ones) unless it is a unique type already present' if ok else
               'the only mutation of the merged list is not "append(mw) when not (mw.unique and mw in merged)": %s' %
               [short(m) for m in muts], core, muts[0] if muts else fi.node)
-    conts = [s for s in stmts_of(fi.node) if isinstance(s, ast.Continue)]
-    ok = bool(conts) and all(has_cond(conds(fi, c), is_dup, True) and has_cond(conds(fi, c), is_reord, True) for c in conts)
+    # an iteration that ends without appending (and without raising) is a dropped middleware: that may happen exactly
+    # for a reorderable unique duplicate.  The ends of an iteration are the predecessors of the loop head inside the body.
+    head = [n for n in cfg.nodes_of(loops[0]) if cfg.nodes[n].kind == 'head']
+    iter_nodes = [n.id for n in cfg.nodes if n.kind == 'iter' and n.stmt is loops[0]]
+    app_nodes = cfg.nodes_of_all([stmt_of(core, m) for m in muts]) if muts else []
+    in_body = cfg.reach(iter_nodes, avoid=head)
+    ends = [p_ for h in head for p_ in cfg.pred[h] if p_ in in_body]
+    drops = [p_ for p_ in ends if p_ not in app_nodes and not cfg.must_pass(app_nodes, iter_nodes, [p_])]
+    ok = bool(drops)
+    for p_ in drops:
+        cs = cfg.conds_at(p_)
+        nd = cfg.nodes[p_]
+        if nd.kind == 'branch':
+            cs = cs + cfg._expand_named(expand_conds([(nd.test, nd.pol)]), p_)
+        ok = ok and has_cond(cs, is_dup, True) and has_cond(cs, is_reord, True)
     rep.check(rule, fkey(fi, 'unique duplicate dropped'), ok,
               'a reorderable unique duplicate is dropped, keeping the outer occurrence' if ok else
-              'duplicates are skipped under the wrong condition', core, conts[0] if conts else fi.node)
+              'duplicates are skipped under the wrong condition', core, loops[0])
     rz = raises_of(fi)
     ok = bool(rz) and all(raise_type(r) == 'ValueError' and has_cond(conds(fi, r), is_dup, True) and has_cond(conds(fi, r), is_reord, False)
                           for r in rz)
@@ -1003,15 +1399,106 @@ def check_merge_order(rep, rule):
               'merge_middlewares is called with (old=%s, new=%s): the binding application\'s middlewares must be the new (outer) list' % (o_old, o_new),
               route, c)
     st = stmt_of(route, c)
-    ok = isinstance(st, ast.Assign) and norm(st.targets[0]) == 'self.middlewares' and \
-        (st.value is c or (isinstance(st.value, ast.Call) and call_name(st.value) in ('tuple', 'list') and st.value.args[0] is c))
+    sm = [s_ for s_ in stmts_of(bi.node) if isinstance(s_, ast.Assign) and any(norm(t) == 'self.middlewares' for t in s_.targets)]
+    ok = len(sm) == 1
+    if ok:
+        v = sm[0].value
+        if isinstance(v, ast.Call) and call_name(v) in ('tuple', 'list') and len(v.args) == 1:
+            v = v.args[0]
+        v = _deref(bi, v)
+        if isinstance(v, ast.Call) and call_name(v) in ('tuple', 'list') and len(v.args) == 1:
+            v = _deref(bi, v.args[0])
+        ok = v is c
+        st = sm[0]
     rep.check(rule, fkey(bi, 'self.middlewares'), ok, 'the merged list (order preserved) becomes self.middlewares' if ok else
               'self.middlewares is not the merged list as returned', route, st)
 
 
 # ---------------------------------------------------------------------------------------------
+# R01.a / R04.a: the name sources BoundRoute.__init__ hands to check_middlewares / make_middleware_chain
+# ---------------------------------------------------------------------------------------------
+
+def eval_bind_sources(repo, expr, before_stmt):
+    """Value of a set- / dict-of-sets-valued expression of BoundRoute.__init__ over the atoms URL (names bound by the
+    path pattern), BUILTINS (RESERVED_ARGS) and RES (keys of the merged resources), evaluated just before
+    ``before_stmt``.  The path converters / the merged resources may be referred to through ``self`` or through the
+    local that was stored there.  -> (universe, plain value); Unmodelled when the expression leaves the subset."""
+    route = repo.mod(ROUTE)
+    bi = route.func('BoundRoute.__init__')
+    uni = Universe(['URL', 'BUILTINS', 'RES'])
+    texts = {'URL': {'self.converters', 'self.path_args'}, 'RES': {'self.resources'}}
+    for s_ in stmts_of(bi.node):
+        if isinstance(s_, ast.Assign) and len(s_.targets) == 1 and isinstance(s_.value, ast.Name) and \
+                len(assigned_value(bi.node, s_.value.id)) == 1 and s_.value.id not in bi.params():
+            t = norm(s_.targets[0])
+            if t == 'self.converters':
+                texts['URL'].add(s_.value.id)
+            elif t == 'self.resources':
+                texts['RES'].add(s_.value.id)
+    for k in list(texts):
+        texts[k] |= set(t + '.keys()' for t in texts[k])
+
+    def atom_of(e):
+        t = norm(e)
+        for k, ts in texts.items():
+            if t in ts:
+                return uni[k]
+        if t == 'RESERVED_ARGS' and repo.try_fold(e, route) is not None:
+            return uni['BUILTINS']
+        return None
+
+    def model(it, e):
+        if isinstance(e, ast.Call) and call_name(e) in ('set', 'frozenset', 'list', 'tuple', 'sorted') and len(e.args) == 1 and not e.keywords:
+            return atom_of(e.args[0])
+        if isinstance(e, ast.Name) and e.id == 'RESERVED_ARGS':
+            return atom_of(e)
+        return None
+    it = SetInterp(uni, model=model)
+    # backward slice: execute only the simple assignments the expression (transitively) depends on
+    need = set(n.id for n in ast.walk(expr) if isinstance(n, ast.Name))
+    prior = []
+    for s_ in stmts_of(bi.node):
+        if s_ is before_stmt:
+            break
+        prior.append(s_)
+    chosen = []
+    for s_ in reversed(prior):
+        if isinstance(s_, (ast.Assign, ast.AugAssign)):
+            tgs = s_.targets if isinstance(s_, ast.Assign) else [s_.target]
+            names = set()
+            for t in tgs:
+                for x in (t.elts if isinstance(t, (ast.Tuple, ast.List)) else [t]):
+                    if isinstance(x, ast.Name):
+                        names.add(x.id)
+                    elif isinstance(x, ast.Starred) and isinstance(x.value, ast.Name):
+                        names.add(x.value.id)
+            if names & need:
+                chosen.append(s_)
+                need |= set(n.id for n in ast.walk(s_.value) if isinstance(n, ast.Name))
+        elif isinstance(s_, ast.Expr) and isinstance(s_.value, ast.Call) and isinstance(s_.value.func, ast.Attribute) and \
+                isinstance(s_.value.func.value, ast.Name) and s_.value.func.value.id in need:
+            chosen.append(s_)
+            need |= set(n.id for n in ast.walk(s_.value) if isinstance(n, ast.Name))
+    for s_ in reversed(chosen):
+        it.exec_stmt(s_)
+    return uni, it.eval(expr)
+
+
+# ---------------------------------------------------------------------------------------------
 # R02.b (inject), R02.c (layers), R02.d (identity)
 # ---------------------------------------------------------------------------------------------
+
+def _is_varkw_cond(t, pol):
+    """The condition says the callee declares ``**kwargs``: fb.varkw / bool(fb.varkw) / fb.varkw is not None."""
+    if isinstance(t, ast.Call) and call_name(t) == 'bool' and len(t.args) == 1:
+        t = t.args[0]
+    if isinstance(t, ast.Attribute) and t.attr == 'varkw':
+        return pol is True
+    if isinstance(t, ast.Compare) and len(t.ops) == 1 and isinstance(t.left, ast.Attribute) and t.left.attr == 'varkw' and \
+            isinstance(t.comparators[0], ast.Constant) and t.comparators[0].value is None:
+        return (isinstance(t.ops[0], (ast.IsNot, ast.NotEq)) and pol is True) or (isinstance(t.ops[0], (ast.Is, ast.Eq)) and pol is False)
+    return False
+
 
 def check_inject(rep, r_decl, r_layers):
     repo = rep.repo
@@ -1021,44 +1508,73 @@ def check_inject(rep, r_decl, r_layers):
     calls = [c for c in walk_body(fi.node) if isinstance(c, ast.Call) and norm(c.func) == ps[0]]
     if not calls:
         raise AnalysisError('inject: call of the injected function not found')
+
+    def all_names(e):
+        """``e`` evaluates to every declared parameter name of the callee: fb.get_arg_names(), maybe under a local name."""
+        e = _deref(fi, e)
+        while isinstance(e, ast.Call) and call_name(e) in ('set', 'frozenset', 'list', 'tuple') and len(e.args) == 1:
+            e = _deref(fi, e.args[0])
+        return isinstance(e, ast.Call) and call_tail(e) == 'get_arg_names' and isinstance(e.func, ast.Attribute) and not e.args and not e.keywords
+
+    def key_test(t, pol, keyvar):
+        return pol is True and isinstance(t, ast.Compare) and len(t.ops) == 1 and isinstance(t.ops[0], ast.In) and \
+            norm(t.left) == keyvar and all_names(t.comparators[0])
+
+    def filtered_dict(name):
+        """Every way ``name`` gets an entry admits declared names only."""
+        defs = [s_ for s_ in stmts_of(fi.node) if isinstance(s_, ast.Assign) and any(norm(t) == name for t in s_.targets)]
+        stores = [s_ for s_ in stmts_of(fi.node) if isinstance(s_, ast.Assign) and any(isinstance(t, ast.Subscript) and norm(t.value) == name
+                                                                                        for t in s_.targets)]
+        muts = [c for c in walk_body(fi.node) if isinstance(c, ast.Call) and isinstance(c.func, ast.Attribute) and norm(c.func.value) == name
+                and c.func.attr in ('update', 'setdefault')]
+        if len(defs) != 1 or muts:
+            return False
+        v = defs[0].value
+        if isinstance(v, ast.DictComp) and len(v.generators) == 1 and not stores:
+            g = v.generators[0]
+            keyvar = norm(g.target.elts[0]) if isinstance(g.target, ast.Tuple) and g.target.elts else norm(g.target)
+            return norm(v.key) == keyvar and any(key_test(*_strip_not(i), keyvar) for i in g.ifs)
+        empty = (isinstance(v, ast.Dict) and not v.keys) or (isinstance(v, ast.Call) and call_name(v) == 'dict' and not v.args and not v.keywords)
+        if empty and stores:
+            for s_ in stores:
+                t = [t for t in s_.targets if isinstance(t, ast.Subscript)][0]
+                if not any(key_test(ct, cp, norm(t.slice)) for ct, cp in conds(fi, s_)):
+                    return False
+            return True
+        return False
     for c in calls:
         star = [k.value for k in c.keywords if k.arg is None]
         ok = not c.args and len(star) == 1 and len(c.keywords) == 1
         filtered = False
+        how = ''
         if ok:
             name = norm(star[0])
             cs = conds(fi, c)
-            if has_cond(cs, lambda t: norm(t).endswith('.varkw'), True):
+            if any(_is_varkw_cond(t, p) for t, p in cs):
                 filtered = True
                 how = 'the callee takes **kwargs (everything may be passed)'
-            else:
-                defs = [s for s in stmts_of(fi.node) if isinstance(s, ast.Assign) and norm(s.targets[0]) == name]
-                for d in defs:
-                    for n in ast.walk(d.value):
-                        if isinstance(n, (ast.ListComp, ast.DictComp, ast.GeneratorExp)):
-                            for g in n.generators:
-                                for i in g.ifs:
-                                    if isinstance(i, ast.Compare) and isinstance(i.ops[0], ast.In) and \
-                                            isinstance(i.comparators[0], ast.Call) and call_tail(i.comparators[0]) == 'get_arg_names' \
-                                            and not i.comparators[0].args and not i.comparators[0].keywords:
-                                        filtered = True
-                                        how = 'only names in fb.get_arg_names() are passed'
+            elif filtered_dict(name):
+                filtered = True
+                how = 'only names in fb.get_arg_names() are passed'
         rep.check(r_decl, fkey(fi, c), ok and filtered,
                   'outermost call passes keywords only; ' + how if ok and filtered else
                   'inject may pass a name the function does not declare (no get_arg_names() filter and no **kwargs guard): %s' % short(c),
                   sinter, c)
-    # layers: defaults strictly below injectables
-    cand = [norm(k.value) for c in calls for k in c.keywords if k.arg is None]
+    # layers: defaults strictly below injectables -- the dict that starts from the signature defaults
     lay = None
-    for v in set(cand):
-        ls = layers_of_var(fi.node, v)
-        if len(ls) >= 2:
+    names = set()
+    for st in stmts_of(fi.node):
+        if isinstance(st, ast.Assign):
+            for t in st.targets:
+                if isinstance(t, ast.Name):
+                    names.add(t.id)
+    for v in sorted(names):
+        try:
+            ls = layers_of_var(fi.node, v)
+        except AnalysisError:
+            continue
+        if any('get_defaults_dict' in l.text for l in ls):
             lay = (v, ls)
-    if lay is None:
-        # filtered dict derives from all_kwargs
-        for st in stmts_of(fi.node):
-            if isinstance(st, ast.Assign) and isinstance(st.value, ast.Call) and call_tail(st.value) == 'get_defaults_dict':
-                lay = (norm(st.targets[0]), layers_of_var(fi.node, norm(st.targets[0])))
     if lay is None:
         raise AnalysisError('inject: layered kwargs dict not found')
     v, ls = lay
@@ -1069,6 +1585,22 @@ def check_inject(rep, r_decl, r_layers):
               "a parameter's own default is the lowest layer: %s" % [l.text for l in ls] if ok else
               'defaults are not strictly below the injectables (a default would override an offered value): %s' % [l.text for l in ls],
               sinter, fi.node)
+    # what is filtered / passed on is that layered dict
+    used = set()
+    for c in calls:
+        for k in c.keywords:
+            if k.arg is None:
+                n = norm(k.value)
+                used.add(n)
+                for s_ in stmts_of(fi.node):
+                    if isinstance(s_, ast.Assign) and any(norm(t) == n for t in s_.targets):
+                        used |= set(x.id for x in ast.walk(s_.value) if isinstance(x, ast.Name))
+                    if isinstance(s_, ast.For) and any(isinstance(q, ast.Assign) and any(isinstance(t, ast.Subscript) and norm(t.value) == n
+                                                                                         for t in q.targets) for q in ast.walk(s_)):
+                        used |= set(x.id for x in ast.walk(s_.iter) if isinstance(x, ast.Name))
+    ok = v in used
+    rep.check(r_layers, fkey(fi, 'layered dict is what is passed'), ok, 'the call arguments derive from %s' % v if ok else
+              'the dict layered as defaults < injectables (%s) is not what the call passes' % v, sinter, fi.node)
 
 
 def check_request_layers(rep, rule, rule_identity=None):
@@ -1093,8 +1625,9 @@ def check_request_layers(rep, rule, rule_identity=None):
         inj = [c for c in walk_body(fi.node) if isinstance(c, ast.Call) and call_name(c) == 'inject']
         if len(inj) != 1:
             raise AnalysisError('%s: expected one inject call' % q)
-        v = norm(inj[0].args[1])
-        ls = layers_of_var(fi.node, v)
+        if len(inj[0].args) < 2:
+            raise AnalysisError('%s: inject call without the injectables argument' % q)
+        ls = layers_of_value(fi.node, inj[0].args[1])
         i_lit = index_of(ls, lambda l: l.kind == 'literal')
         i_res = index_of(ls, lambda l: l.text == 'self.resources')
         i_kw = index_of(ls, lambda l: l.text == 'kwargs')
@@ -1106,7 +1639,8 @@ def check_request_layers(rep, rule, rule_identity=None):
             lit = ls[i_lit]
             want = {'_route': 'self', 'request': 'request', '_application': 'self.bound_apps[-1]'}
             want.update((k, k) for k in extra)
-            got = dict((k, norm(val)) for k, val in lit.values.items())
+            got = dict((k, norm(_deref(fi, val) if isinstance(val, ast.Name) and val.id not in fi.params() else val))
+                       for k, val in lit.values.items())
             ok = got == want
             rep.check(rule, fkey(fi, 'built-in values'), ok, 'each built-in name is bound to the object it names: %s' % got if ok else
                       'built-in injectables are mis-bound: %s (expected %s)' % (got, want), route, lit.node)
@@ -1114,7 +1648,7 @@ def check_request_layers(rep, rule, rule_identity=None):
             bad = [l.text for l in ls if not plain(l)]
             rep.check(rule_identity, fkey(fi, 'identity'), not bad, 'values are moved between dicts, never passed through a call' if not bad else
                       'resource/parameter values pass through %s before injection (copied or transformed, identity lost)' % bad, route, inj[0])
-        first = norm(inj[0].args[0])
+        first = norm(_deref(fi, inj[0].args[0]))
         ok = first == ('self._execute' if q.endswith('execute') else 'self.render_error')
         rep.check(rule, fkey(fi, 'injected callable'), ok, 'injects into %s' % first if ok else 'injects into %s' % first, route, inj[0])
     # -- Application.dispatch
@@ -1127,7 +1661,7 @@ def check_request_layers(rep, rule, rule_identity=None):
         rep.fail(rule, fkey(fi, 'execute(**params)'), 'route.execute is not called with exactly **params: %s' % short(exe[0]), app, exe[0])
         return
     pv = norm(star[0])
-    ls = layers_of_var(fi.node, pv)
+    ls = layers_of_value(fi.node, star[0])
     # expand one level: params = dict(base_params, **path_params)
     flat = []
     for l in ls:
@@ -1138,9 +1672,12 @@ def check_request_layers(rep, rule, rule_identity=None):
                 flat.extend(sub)
                 continue
         flat.append(l)
+    # the URL parameters: the local(s) bound to the result of <route>.match_path(...)
+    path_vars = [norm(s_.targets[0]) for s_ in stmts_of(fi.node) if isinstance(s_, ast.Assign) and isinstance(s_.value, ast.Call)
+                 and norm(s_.value.func).endswith('.match_path') and isinstance(s_.targets[0], ast.Name)]
     i_res = index_of(flat, lambda l: l.text == 'self.resources')
     i_lit = index_of(flat, lambda l: l.kind == 'literal')
-    i_path = index_of(flat, lambda l: l.text == 'path_params')
+    i_path = index_of(flat, lambda l: l.text in path_vars)
     ok = None not in (i_res, i_lit, i_path) and i_res < i_lit < i_path and len(flat) == 3
     rep.check(rule, fkey(fi, 'layers'), ok,
               "serving application's resources < {request, _application, _dispatch_state} < URL parameters: %s" % [l.text for l in flat] if ok else
@@ -1192,7 +1729,8 @@ def check_request_layers(rep, rule, rule_identity=None):
                   'no parameter dict built before the loop is mutated inside it' if not leaks else
                   'a dict built once per request (%s) is mutated inside the route loop: one route\'s parameters are still there for the next'
                   % sorted(set(e.root for e in leaks)), app, leaks[0].node if leaks else lp)
-    pp = [s for s in stmts_of(fi.node) if isinstance(s, ast.Assign) and norm(s.targets[0]) == 'path_params']
+    top_name = flat[i_path].text if i_path is not None else None
+    pp = [s for s in stmts_of(fi.node) if isinstance(s, ast.Assign) and top_name is not None and norm(s.targets[0]) == top_name]
     ok = len(pp) == 1 and isinstance(pp[0].value, ast.Call) and norm(pp[0].value.func).endswith('.match_path')
     rep.check(rule, fkey(fi, 'path_params source'), ok, 'URL parameters are the converted values returned by route.match_path' if ok else
               'path_params is not the result of route.match_path', app, pp[0] if pp else fi.node)
@@ -1208,11 +1746,22 @@ def check_request_layers(rep, rule, rule_identity=None):
                 continue
         flat.append((l.text, l))
     texts = [t for t, _ in flat]
-    ok = len(texts) == 2 and 'app' in texts[0] and 'resources' in texts[0] and 'route' in texts[1] and 'resources' in texts[1]
+    bps = bi.params()     # self, route, app
+
+    def res_of(t, who):
+        while t.startswith('dict(') and t.endswith(')'):
+            t = t[5:-1]            # a shallow copy of the mapping holds the same values
+        if t.endswith('.copy()'):
+            t = t[:-7]
+        return t in ('%s.resources' % who, "getattr(%s, 'resources', {})" % who, "getattr(%s, 'resources', None) or {}" % who,
+                     '%s.resources or {}' % who)
+    ok = len(texts) == 2 and len(bps) >= 3 and res_of(texts[0], bps[2]) and res_of(texts[1], bps[1])
     rep.check(rule, fkey(bi, 'resource layers'), ok, 'bind time: application resources < route resources: %s' % texts if ok else
               'BoundRoute resources are not layered app < route: %s' % texts, route, bi.node)
     if rule_identity:
         fresh = [s for s in stmts_of(bi.node) if isinstance(s, ast.Assign) and norm(s.targets[0]) == 'self.resources']
-        ok = len(fresh) == 1 and isinstance(fresh[0].value, ast.Call) and call_name(fresh[0].value) == 'dict'
+        val = _deref(bi, fresh[0].value) if len(fresh) == 1 else None      # a dict built here, directly or under a local name
+        ok = len(fresh) == 1 and ((isinstance(val, ast.Call) and call_name(val) == 'dict') or
+                                  isinstance(val, ast.Dict))
         rep.check(rule_identity, fkey(bi, 'resources container'), ok, 'the bound route keeps its own dict (values by identity)' if ok else
                   'self.resources is not a fresh dict()', route, bi.node)
